@@ -4,7 +4,7 @@ use shared::triple::Triple;
 use rayon::prelude::*;
 use crate::reasoning::materialisation::replace_variables_with_bound_values;
 use crate::reasoning::Reasoner;
-use crate::reasoning::rules::matches_rule_pattern;
+use crate::reasoning::rules::{evaluate_filters, join_remaining, matches_rule_pattern};
 
 impl Reasoner {
 
@@ -30,123 +30,41 @@ impl Reasoner {
                 .fold(
                     || HashSet::new(),
                     |mut local_set, triple1| {
-                        // Use only the predicate for candidate rule lookup
-                        let candidate_rule_ids = self.rule_index.query_candidate_rules(
-                            None,
-                            Some(triple1.predicate),
-                            None,
-                        );
-                        for &rule_id in candidate_rule_ids.iter() {
-                            let rule = &self.rules[rule_id];
-                            match rule.premise.len() {
-                                1 => {
-                                    // Single-premise rule
-                                    let mut variable_bindings = HashMap::new();
-                                    if matches_rule_pattern(
-                                        &rule.premise[0],
-                                        triple1,
-                                        &mut variable_bindings,
-                                    ) {
-                                        // Process each conclusion
-                                        for conclusion in &rule.conclusion {
-                                            let inferred = replace_variables_with_bound_values(
-                                                conclusion,
-                                                &variable_bindings,
-                                                &mut dict.clone(),
-                                            );
-                                            if !all_facts_arc.contains(&inferred) {
-                                                local_set.insert(inferred);
-                                            }
+                        // Every rule is a candidate: a premise with a variable predicate is
+                        // matched by any delta fact, so a lookup by predicate would miss it.
+                        for rule in self.rules.iter() {
+                            // The delta fact takes the place of each premise in turn; the
+                            // remaining premises are joined against all known facts.
+                            for changed_idx in 0..rule.premise.len() {
+                                let mut variable_bindings = HashMap::new();
+                                if !matches_rule_pattern(
+                                    &rule.premise[changed_idx],
+                                    triple1,
+                                    &mut variable_bindings,
+                                ) {
+                                    continue;
+                                }
+                                for solution in join_remaining(
+                                    rule,
+                                    changed_idx,
+                                    &all_facts_arc,
+                                    variable_bindings,
+                                ) {
+                                    if !evaluate_filters(&solution, &rule.filters, &dict) {
+                                        continue;
+                                    }
+                                    // Process each conclusion
+                                    for conclusion in &rule.conclusion {
+                                        let inferred = replace_variables_with_bound_values(
+                                            conclusion,
+                                            &solution,
+                                            &mut dict.clone(),
+                                        );
+                                        if !all_facts_arc.contains(&inferred) {
+                                            local_set.insert(inferred);
                                         }
                                     }
                                 }
-
-                                2 => {
-                                    // Two-premise rule
-                                    let mut variable_bindings_1 = HashMap::new();
-                                    if matches_rule_pattern(
-                                        &rule.premise[0],
-                                        triple1,
-                                        &mut variable_bindings_1,
-                                    ) {
-                                        // Process join in parallel over all_facts
-                                        let local_new: HashSet<Triple> = all_facts_arc
-                                            .par_iter()
-                                            .flat_map(|triple2| {
-                                                let mut variable_bindings_2 =
-                                                    variable_bindings_1.clone();
-                                                if matches_rule_pattern(
-                                                    &rule.premise[1],
-                                                    triple2,
-                                                    &mut variable_bindings_2,
-                                                ) {
-                                                    // Process each conclusion
-                                                    rule.conclusion
-                                                        .iter()
-                                                        .filter_map(|conclusion| {
-                                                            let inferred = replace_variables_with_bound_values(
-                                                                conclusion,
-                                                                &variable_bindings_2,
-                                                                &mut dict.clone(),
-                                                            );
-                                                            if !all_facts_arc.contains(&inferred) {
-                                                                Some(inferred)
-                                                            } else {
-                                                                None
-                                                            }
-                                                        })
-                                                        .collect::<Vec<_>>()
-                                                } else {
-                                                    Vec::new()
-                                                }
-                                            })
-                                            .collect();
-                                        local_set.extend(local_new);
-                                    }
-
-                                    // Option 2: Assume triple1 matches the second premise
-                                    let mut variable_bindings_1b = HashMap::new();
-                                    if matches_rule_pattern(
-                                        &rule.premise[1],
-                                        triple1,
-                                        &mut variable_bindings_1b,
-                                    ) {
-                                        let local_new: HashSet<Triple> = all_facts_arc
-                                            .par_iter()
-                                            .flat_map(|triple2| {
-                                                let mut variable_bindings_2b =
-                                                    variable_bindings_1b.clone();
-                                                if matches_rule_pattern(
-                                                    &rule.premise[0],
-                                                    triple2,
-                                                    &mut variable_bindings_2b,
-                                                ) {
-                                                    // Process each conclusion
-                                                    rule.conclusion
-                                                        .iter()
-                                                        .filter_map(|conclusion| {
-                                                            let inferred = replace_variables_with_bound_values(
-                                                                conclusion,
-                                                                &variable_bindings_2b,
-                                                                &mut dict.clone(),
-                                                            );
-                                                            if !all_facts_arc.contains(&inferred) {
-                                                                Some(inferred)
-                                                            } else {
-                                                                None
-                                                            }
-                                                        })
-                                                        .collect::<Vec<_>>()
-                                                } else {
-                                                    Vec::new()
-                                                }
-                                            })
-                                            .collect();
-                                        local_set.extend(local_new);
-                                    }
-                                }
-
-                                _ => {}
                             }
                         }
                         local_set
